@@ -256,7 +256,7 @@ func genCase(rnd *rand.Rand, cfg genCfg, id int) *Case {
 			init := c.addBody(g.initVars())
 			stmts = append(stmts, Stmt{K: "if", Clauses: []Clause{{Cond: eBin("eq", eCall("visited_count", eStr(g.titles[0])), eNum(0, 1)), Body: init}}})
 			body := g.stmts(1, i)
-			for len(body) > 0 && (body[len(body)-1].K == "jump" || body[len(body)-1].K == "cmd" && body[len(body)-1].Elems[0].S == "stop") {
+			for len(body) > 0 && (body[len(body)-1].K == "jump" || body[len(body)-1].K == "cmd" && len(body[len(body)-1].Elems) > 0 && body[len(body)-1].Elems[0].S == "stop") {
 				body = body[:len(body)-1]
 			}
 			stmts = append(stmts, body...)
@@ -833,6 +833,10 @@ func (g *gen) cmdStmt() Stmt {
 	}
 	if g.cfg.Faults > 0 && r.Float64() < g.cfg.Faults {
 		names = []string{"nosuchcmd"}
+		if r.Intn(4) == 0 {
+			// a command without a single word: nothing but blanks the lexer does not know (NBSP, U+3000) between << and >>
+			return Stmt{K: "cmd"}
+		}
 	}
 	if g.hostWait {
 		names = append(names, "wait", "wait")
